@@ -32,6 +32,7 @@ class CreateInsertExtractor(BaseExtractor):
     ) -> SubQueryLineageHolder:
         holder = self._init_holder(context)
         src_flag = tgt_flag = False
+        metadata_columns: list = []
         for segment in list_child_segments(statement):
             if segment.type == "with_compound_statement":
                 holder |= self.delegate_to_cte(segment, holder)
@@ -83,6 +84,10 @@ class CreateInsertExtractor(BaseExtractor):
                             if identifier := sub_segment.get_child("identifier"):
                                 sub_segment = identifier
                         columns.append(SqlFluffColumn.of(sub_segment))
+                    if metadata_columns:
+                        # an explicit column list wins over the target table's columns known from metadata
+                        holder.graph.remove_nodes_from(metadata_columns)
+                        metadata_columns = []
                     holder.add_write_column(*columns)
 
             elif segment.type == "keyword":
@@ -111,9 +116,10 @@ class CreateInsertExtractor(BaseExtractor):
                         and self.metadata_provider
                         and statement.type == "insert_statement"
                     ):
-                        holder.add_write_column(
-                            *self.metadata_provider.get_table_columns(table=write_obj)
+                        metadata_columns = self.metadata_provider.get_table_columns(
+                            table=write_obj
                         )
+                        holder.add_write_column(*metadata_columns)
                 elif segment.type == "literal":
                     if segment.raw.isnumeric():
                         # Special Handling for Spark Bucket Table DDL
